@@ -15,18 +15,18 @@ fn space(tier: Tier) -> &'static Space {
     static Q: OnceLock<Space> = OnceLock::new();
     static T: OnceLock<Space> = OnceLock::new();
     match tier {
-        Tier::Quick => Q.get_or_init(|| Space::new(&[("FX", 0), ("FS", 2), ("FC", 2), ("FA", 2), ("FT", 2), ("FL", 2), ("FW", 0), ("FM", 0), ("FR", 0)])),
-        Tier::Thorough => T.get_or_init(|| Space::new(&[("FX", 0), ("FS", 3), ("FC", 4), ("FA", 4), ("FT", 3), ("FL", 4), ("FW", 0), ("FM", 0), ("FR", 0)])),
+        Tier::Quick => Q.get_or_init(|| Space::new(&[("FX", 0), ("FS", 2), ("FC", 2), ("FA", 2), ("FT", 2), ("FL", 2), ("FW", 0), ("FM", 0), ("FR", 0), ("FB", 2), ("FO", 0)])),
+        Tier::Thorough => T.get_or_init(|| Space::new(&[("FX", 0), ("FS", 3), ("FC", 4), ("FA", 4), ("FT", 3), ("FL", 4), ("FW", 0), ("FM", 0), ("FR", 0), ("FB", 3), ("FO", 0)])),
     }
 }
 /// (samples, [(stream, scheduler installed)])
 fn params(tier: Tier, family: &str) -> (usize, Vec<(usize, bool)>) {
     match (tier, family) {
         (Tier::Quick, "FX") => (4, vec![(1, true)]),
-        (Tier::Quick, "FT") | (Tier::Quick, "FL") | (Tier::Quick, "FR") => (10, vec![(0, true)]),
+        (Tier::Quick, "FT") | (Tier::Quick, "FL") | (Tier::Quick, "FR") | (Tier::Quick, "FO") => (10, vec![(0, true)]),
         (Tier::Quick, _) => (12, vec![(0, true), (1, false)]),
         (Tier::Thorough, "FX") => (4, vec![(1, true), (1, false)]),
-        (Tier::Thorough, "FT") | (Tier::Thorough, "FL") | (Tier::Thorough, "FR") => (16, vec![(0, true), (1, true)]),
+        (Tier::Thorough, "FT") | (Tier::Thorough, "FL") | (Tier::Thorough, "FR") | (Tier::Thorough, "FO") => (16, vec![(0, true), (1, true)]),
         (Tier::Thorough, _) => (32, vec![(0, true), (0, false), (1, false), (2, true)]),
     }
 }
@@ -247,7 +247,7 @@ impl Prop for C01 {
         let mut nonconst = false;
         let mut runs = 0u64;
         for (si, sched) in cfgs {
-            let needs_sched = ["FT", "FL", "FW", "FR"].contains(&g.family);
+            let needs_sched = ["FT", "FL", "FW", "FR", "FO"].contains(&g.family);
             let sched = sched || needs_sched;
             let vm = run_backend(Backend::Vm, &src, sched, g.inputs, si, n, false);
             let wa = run_backend(Backend::Wasm, &src, sched, g.inputs, si, n, false);
